@@ -51,6 +51,15 @@ E.update({
     'Subscript.slice.elt': 'aa[{H}, bb]',
     'Slice.lower': 'aa[{H}:]', 'Slice.upper': 'aa[:{H}]', 'Slice.step': 'aa[lo:hi:{H}]',
     'NamedExpr.target': '({H} := vv)',
+    # f-strings (3.12 / PEP 701)
+    'FormattedValue.value': 'f"{{{H}}}"', 'FormattedValue.value.squote': "f'{{{H}}}'",
+    'FormattedValue.value.triple': "f'''{{{H}}}'''", 'FormattedValue.value.mid': 'f"aa{{{H}}}bb"',
+    'FormattedValue.value.second': 'f"{{aa}}{{{H}}}"', 'FormattedValue.value.conv': 'f"{{{H}!r}}"',
+    'FormattedValue.value.spec': 'f"{{{H}:>10}}"', 'FormattedValue.value.convspec': 'f"{{{H}!s:>{{ww}}}}"',
+    'FormattedValue.value.debug': 'f"{{{H} = }}"', 'FormattedValue.value.debug.conv': 'f"{{{H}=!s:>5}}"',
+    'FormattedValue.value.debug.mid': 'f"aa {{{H}=}} bb"',
+    'IfExp.orelse.infstring': 'f"{{bb if tt else {H}}}"', 'Tuple.elts.infstring': 'f"{{aa, {H}}}"',
+    'format_spec.field': 'f"{{xx:{{{H}}}}}"', 'format_spec.field.mid': 'f"{{xx:>{{{H}}}.{{ww}}}}"',
 })
 
 S = {  # statement-level slots: id -> source
@@ -74,6 +83,13 @@ S = {  # statement-level slots: id -> source
     'withitem.optional_vars': 'with cc as {H}: pass', 'Delete.targets': 'del {H}, bb',
     'AugAssign.target': '{H} += vv', 'Tuple.elts.store': '{H}, bb = cc', 'List.elts.store': '[aa, {H}] = cc',
     'Starred.value.store': '*{H}, bb = cc',
+    'AnnAssign.target': '{H}: int = vv', 'AnnAssign.target.noval': '{H}: int',
+    'Attribute.value.ann': '{H}.attr: int = vv', 'Subscript.value.ann': '{H}[ii]: int = vv',
+    # literal patterns: the operand replaced is the literal `0` (a name would be a capture), see OLD / PATH
+    'MatchValue.value': 'match ss:\n    case {H}: pass', 'MatchValue.value.inor': 'match ss:\n    case {H} | 1: pass',
+    'MatchValue.value.inseq': 'match ss:\n    case [pp, {H}]: pass',
+    'MatchMapping.keys': 'match ss:\n    case {{{H}: pp, 1: qq}}: pass',
+    'MatchMapping.keys.second': 'match ss:\n    case {{1: pp, {H}: qq}}: pass',
     # patterns
     'match_case.pattern': 'match ss:\n    case {H}: pass',
     'MatchAs.pattern': 'match ss:\n    case {H} as nn: pass',
@@ -94,6 +110,18 @@ S = {  # statement-level slots: id -> source
 }
 
 SOLOGEN_OLD = 'ii for ii in jj'
+
+_CASE = [('body', 0), ('cases', 0), ('pattern', None)]
+OLD = {k: '0' for k in ('MatchValue.value', 'MatchValue.value.inor', 'MatchValue.value.inseq', 'MatchMapping.keys',
+                        'MatchMapping.keys.second')}
+PATH = {'MatchValue.value': _CASE + [('value', None)],
+        'MatchValue.value.inor': _CASE + [('patterns', 0), ('value', None)],
+        'MatchValue.value.inseq': _CASE + [('patterns', 1), ('value', None)],
+        'MatchMapping.keys': _CASE + [('keys', 0)], 'MatchMapping.keys.second': _CASE + [('keys', 1)]}
+
+
+def is_fstring_slot(slot):
+    return slot.startswith('FormattedValue.') or slot.startswith('format_spec.')
 
 
 def is_fill(slot):
@@ -117,7 +145,10 @@ K = {
     'LambdaArgs': ('lambda p1, q1=1: p1', 'lambda p1, q1=1: p1 +\nq1'),
     'Or': ('o1 or o2', 'o1 or\no2'), 'And': ('a1 and a2', 'a1 and\na2'), 'Not': ('not n1', 'not\nn1'),
     'Compare': ('c1 < c2', 'c1 <\nc2'), 'CompareIn': ('c1 not in c2', 'c1 not in\nc2'),
-    'CompareIsNot': ('c1 is not c2', 'c1 is not\nc2'), 'CompareChain': ('c1 < c2 >= c3', 'c1 < c2 >=\nc3'),
+    'CompareIsNot': ('c1 is not c2', 'c1 is not\nc2'), 'CompareNotEq': ('c1 != c2', 'c1 !=\nc2'),
+    'PosNum': ('+7', None), 'IntSum': ('1 + 2', None), 'ImagFirst': ('2j + 1', None),
+    'NegNum': ('-7', '-\n7'), 'ComplexLit': ('1 + 2j', '1 +\n2j'), 'ComplexNeg': ('-1 - 2j', '-1 -\n2j'),
+    'StrDq': ('"s1"', '"""s1\ns2"""'), 'CompareChain': ('c1 < c2 >= c3', 'c1 < c2 >=\nc3'),
     'BitOr': ('b1 | b2', 'b1 |\nb2'), 'BitXor': ('b1 ^ b2', 'b1 ^\nb2'), 'BitAnd': ('b1 & b2', 'b1 &\nb2'),
     'LShift': ('s1 << s2', 's1 <<\ns2'), 'RShift': ('s1 >> s2', 's1 >>\ns2'),
     'Add': ('a1 + a2', 'a1 +\na2'), 'Sub': ('a1 - a2', 'a1 -\na2'),
